@@ -30,20 +30,29 @@ _E = None
 # ----------------------------------------------------------------------------------------------------------------------
 # loading the real code deterministically
 
+_HASH_CNT = [0]
+
+
 def _install_hash(Node):
-    """counter-based __hash__ on src.ir.node.Node (identity __eq__ untouched): node sets iterate reproducibly"""
+    """counter-based __hash__ on src.ir.node.Node (identity __eq__ untouched): node sets iterate reproducibly.  The
+    counter is restarted for every generated program (reset_hash_counter), so that a program does not depend on how many
+    nodes were hashed before it."""
     if getattr(Node, '_verif_hash', False):
         return
-    cnt = itertools.count(1)
 
     def __hash__(self):
         d = self.__dict__
         h = d.get('_vh')
         if h is None:
-            h = d['_vh'] = next(cnt)
+            _HASH_CNT[0] += 1
+            h = d['_vh'] = _HASH_CNT[0]
         return h
     Node.__hash__ = __hash__
     Node._verif_hash = True
+
+
+def reset_hash_counter():
+    _HASH_CNT[0] = 0
 
 
 class Env:
@@ -422,6 +431,7 @@ class Checker:
         self.depth = 0
         self.stats = {'projections': 0, 'requests_kept': 0, 'bounds_checked': 0, 'nested': 0, 'retro': 0}
         self.samples = []
+        self.work = [0]
         self.collect = None             # debugging aid: every distinct violation signature
 
     # -- helpers -----------------------------------------------------------------------------------------------------
@@ -1172,16 +1182,17 @@ def generator_inputs(tier, seed):
 
 
 def run_generator(E, chk, inp):
-    """generate one program (and run the type-overwriting mutation on it) with the wrappers installed.  Must run in a
-    process that has not generated anything before: the generator keeps state across programs (the same seed gives a
-    different program after another one), so the driver forks a fresh child per program.  A deterministic work guard
-    (objects deep-copied by src.ir.types) cuts off the rare programs whose generation takes minutes."""
+    """generate one program (and run the type-overwriting mutation on it) with the wrappers installed.  RNG, word pool,
+    cfg switches and the node-hash counter are reset first, which makes the program a function of (language, seed,
+    switches) alone.  A deterministic work guard (objects deep-copied on the generator path) cuts off the rare programs
+    whose generation takes minutes."""
     import copy
     import importlib
     gen = importlib.import_module('src.generators.generator')
     E.cfg.dis.use_site_variance, E.cfg.dis.use_site_contravariance = inp['dis']
     E.utils.random.r.seed(inp['seed'])
     E.utils.random.reset_word_pool()
+    reset_hash_counter()
     chk.current = inp
     chk.ref = Ref(E)                 # class names are per program
     old = sys.getrecursionlimit()
@@ -1238,7 +1249,7 @@ RULE = (
     'utils.random.r.seed(k). quick = a fixed stratified subsample of this product (strides in SIZES) + 4000 '
     'VERIF_SEED-random points, thorough = denser strides + 150000 random points. '
     'GENERATOR: every call made while generating and type-overwriting the programs of the fixed (language, seed, cfg.dis) '
-    'list (+ VERIF_SEED-random seeds), each program in a freshly forked process; a deterministic work guard (%d objects '
+    'list (+ VERIF_SEED-random seeds); a deterministic work guard (%d objects '
     'deep-copied by the generator path) cuts off the rare very long generations (counted). '
     'ORACLE: specs/inst_ref.py Ref.sub, a declarative relation read from the declarations and extended to type variables '
     '(X <: T iff X == T or bound(X) <: T); never the repository\'s is_subtype / == / substitution. A projection argument '
@@ -1265,69 +1276,70 @@ def _partial(chk, counts, first, seconds):
 
 
 def _work(task):
-    """one task in a freshly forked child: ('synthetic', tier, seed, stop_first, part, parts) evaluates the synthetic
-    inputs with index = part (mod parts); ('generator', index, input) one program"""
+    """evaluate the synthetic inputs and the generator programs with index = part (mod parts)"""
+    tier, seed, stop_first, only, part, parts = task
     E = env()
     chk = Checker(E)
     chk.install()
     counts = {'synthetic': 0, 'generator_programs': 0}
     first = {}                        # check name -> global index of the input on which it was first seen
     t0 = time.time()
+    t1 = t0
+
+    def note(idx):
+        if len(first) != len(chk.violations):
+            for k in chk.violations:
+                first.setdefault(k, idx)
+            return stop_first
+        return False
     try:
-        if task[0] == 'synthetic':
-            _, tier, seed, stop_first, part, parts = task
+        stop = False
+        if only in (None, 'synthetic'):
             worlds = {'kotlin': World(E, 'kotlin'), 'java': World(E, 'java')}
-            idx = -1
-            for inp in synthetic_inputs(tier, seed):
-                idx += 1
+            for idx, inp in enumerate(synthetic_inputs(tier, seed)):
                 if idx % parts != part:
                     continue
                 counts['synthetic'] += 1
                 if len(chk.ref._sub) > 200000:
                     chk.ref._sub.clear()
                 run_input(E, chk, worlds, inp)
-                if len(first) != len(chk.violations):
-                    for k in chk.violations:
-                        first.setdefault(k, idx)
-                    if stop_first:
-                        break
-        else:
-            _, idx, inp = task
-            counts['generator_programs'] += 1
-            run_generator(E, chk, inp)
-            for k in chk.violations:
-                first.setdefault(k, 10 ** 9 + idx)
+                if note(idx):
+                    stop = True
+                    break
+        t1 = time.time()
+        if only in (None, 'generator') and not stop:
+            for idx, inp in enumerate(generator_inputs(tier, seed)):
+                if idx % parts != part:
+                    continue
+                counts['generator_programs'] += 1
+                run_generator(E, chk, inp)
+                if note(10 ** 9 + idx):
+                    break
     finally:
         chk.uninstall()
-    return _partial(chk, counts, first, (task[0], time.time() - t0))
+    return _partial(chk, counts, first, (t1 - t0, time.time() - t1))
 
 
 def run(tier, seed, stop_first=False, only=None, workers=None):
-    """Every task runs in a freshly forked child of this (pristine, nothing-generated-yet) process: the synthetic input
-    list is dealt round-robin to `workers` tasks, each generator program is a task of its own.  The merged result does
-    not depend on the number of workers (VERIF_WORKERS; default 4 for quick, 12 for thorough, at most 16)."""
+    """The input lists (synthetic inputs, generator programs) are dealt round-robin to `workers` forked processes
+    (VERIF_WORKERS; default 4 for quick, 12 for thorough, at most 16; 1 = no fork).  Inputs are independent of each
+    other (RNG, cfg switches and the node-hash counter are reset per input), so the merged result does not depend on the
+    number of workers."""
     env()
     if workers is None:
         workers = max(1, min(16, int(os.environ.get('VERIF_WORKERS', '4' if tier == 'quick' else '12'))))
-    tasks = []
-    if only in (None, 'generator') and not stop_first:
-        tasks += [('generator', i, inp) for i, inp in enumerate(generator_inputs(tier, seed))]
-    if only in (None, 'synthetic'):
-        tasks += [('synthetic', tier, seed, stop_first, k, workers) for k in range(workers)]
-    if only in (None, 'generator') and stop_first:
-        tasks += [('generator', i, inp) for i, inp in enumerate(generator_inputs(tier, seed))]
-    import multiprocessing
-    parts = []
+    tasks = [(tier, seed, stop_first, only, k, workers) for k in range(workers)]
     t0 = time.time()
-    pool = multiprocessing.get_context('fork').Pool(workers, maxtasksperchild=1)
-    try:
-        for r in (pool.imap(_work, tasks) if stop_first else pool.imap_unordered(_work, tasks)):
-            parts.append(r)
-            if stop_first and r['violations']:
-                break
-    finally:
-        pool.terminate()
-        pool.join()
+    if workers == 1:
+        parts = [_work(tasks[0])]
+    else:
+        import multiprocessing
+        pool = multiprocessing.get_context('fork').Pool(workers)
+        try:
+            parts = pool.map(_work, tasks, chunksize=1)
+        finally:
+            pool.terminate()
+            pool.join()
     nontrivial = set()
     viol = {}
     exceptions = {}
@@ -1352,7 +1364,8 @@ def run(tier, seed, stop_first=False, only=None, workers=None):
         for k, v in p['exceptions'].items():
             e = exceptions.setdefault(k, dict(count=0, message=v['message'], first_input=v['first_input']))
             e['count'] += v['count']
-        cpu[p['seconds'][0]] += p['seconds'][1]
+        cpu['synthetic'] += p['seconds'][0]
+        cpu['generator'] += p['seconds'][1]
     samples = sorted((x for p in parts for x in p['samples']), key=repr)[:4]
     return dict(evaluations=tot['evaluations'], distinct_nontrivial=len(nontrivial), rule=RULE, samples=samples,
                 violations=[v for _, v in sorted(viol.values(), key=lambda x: x[0])], exhaustive=False,
